@@ -171,7 +171,7 @@ theorem C05_envelope_real (cols : List Col) (codec pageSize : Nat) (ops : List O
   C05_envelope _ cols codec pageSize "Carquet" ops hok
 
 /-- non-vacuity: a two-column history with a row-group boundary closes OK -/
-example : (fileOf (Carquet.Impl.FileReal.deps []) [⟨"a", .int32, .optional, 0⟩, ⟨"b", .boolean, .required, 0⟩] 0 64 "Carquet"
+example : (fileOf (Carquet.Impl.FileReal.deps []) [⟨"a", .int32, .optional, 0, none⟩, ⟨"b", .boolean, .required, 0, none⟩] 0 64 "Carquet"
     [.batch ⟨0, 3, some [1, 0, 1], [[1, 0, 0, 0], [2, 0, 0, 0]], none⟩, .batch ⟨1, 3, none, [[1], [0], [1]], none⟩, .newRowGroup,
      .batch ⟨0, 1, none, [[7, 0, 0, 0]], none⟩, .batch ⟨1, 1, none, [[0]], none⟩]).2.getLast? = some .ok := by
   decide +kernel
@@ -185,12 +185,12 @@ example : HistWF [.batch ⟨0, 3, some [1, 0, 1], [[1, 0, 0, 0], [2, 0, 0, 0]], 
   rcases hb with h | h | h | h <;> subst h <;>
     exact ⟨by decide, (by intro ds h; cases h <;> rfl), (by intro rs h; cases h)⟩
 
-example : ((fileOf (Carquet.Impl.FileReal.deps []) [⟨"a", .int32, .optional, 0⟩, ⟨"b", .boolean, .required, 0⟩] 0 64 "Carquet"
+example : ((fileOf (Carquet.Impl.FileReal.deps []) [⟨"a", .int32, .optional, 0, none⟩, ⟨"b", .boolean, .required, 0, none⟩] 0 64 "Carquet"
     [.batch ⟨0, 3, some [1, 0, 1], [[1, 0, 0, 0], [2, 0, 0, 0]], none⟩, .batch ⟨1, 3, none, [[1], [0], [1]], none⟩, .newRowGroup,
      .batch ⟨0, 1, none, [[7, 0, 0, 0]], none⟩, .batch ⟨1, 1, none, [[0]], none⟩]).2.all (· == .ok)) = true := by
   decide +kernel
 
-example : tableOf [⟨"a", .int32, .optional, 0⟩, ⟨"b", .boolean, .required, 0⟩]
+example : tableOf [⟨"a", .int32, .optional, 0, none⟩, ⟨"b", .boolean, .required, 0, none⟩]
     [.batch ⟨0, 3, some [1, 0, 1], [[1, 0, 0, 0], [2, 0, 0, 0]], none⟩, .batch ⟨1, 3, none, [[1], [0], [1]], none⟩, .newRowGroup,
      .batch ⟨0, 1, none, [[7, 0, 0, 0]], none⟩, .batch ⟨1, 1, none, [[0]], none⟩] =
     [[⟨3, [1, 0, 1], [], [[1, 0, 0, 0], [2, 0, 0, 0]]⟩, ⟨3, [], [], [[1], [0], [1]]⟩],
